@@ -407,6 +407,27 @@ def run(world, rep, tier, only=None):
                "every path from the recursive ind_punch() to ext2fs_block_alloc_stats(…, -1) passes check_zero_block() and takes "
                "its `empty` outcome: %s" % [b.line for b in bad])
 
+    # ------------------------------------------------------------------ C09.u the range is carried correctly from level to level
+    # ext2fs_punch_ind() walks the direct blocks and the three indirect levels; whether the range goes on into the next
+    # level depends on where it *ends* (start + count), and what is handed down to a child is what is left of the range
+    # from the child's first block on (start + count - offset - start2): both need start as well as count.
+    pi = prog.fn("ext2fs_punch_ind", "lib/ext2fs/punch.c")
+    adv = [n for n in pi.events("S") if T.path(n.ev["lhs"]) == "count" and n.ev.get("o") == "-="]
+    rep.floor("C09.u reduction of count between levels in ext2fs_punch_ind", len(adv), 1)
+    for i, a_ in enumerate(adv):
+        lits = [(t, x) for (t, x) in control_lits(pi, a_) if "max" in T.vars_in(x)]
+        ok = any({"start", "count"} <= T.vars_in(x) or
+                 (depends_on(pi, x, lambda y: T.path(y) == "start") and depends_on(pi, x, lambda y: T.path(y) == "count"))
+                 for t, x in lits)
+        rep.ob("C09.u", site(pi, "next level entered when start + count exceeds this level#%d" % i), ok,
+               "the test against max that guards `count -= max - start` reads start and count: %s" % [T.pp(x)[:40] for t, x in lits])
+    for i, r_ in enumerate(rec):
+        a6 = arg(r_, 6)
+        need = {"start", "count", "offset"}
+        got = {v for v in need if depends_on(ip, a6, lambda y, _v=v: T.path(y) == _v)}
+        rep.ob("C09.u", site(ip, "child receives what is left of the range#%d" % i), got == need,
+               "count argument of the recursive call `%s` derives from %s (needs start, count and offset)" % (T.pp(a6)[:40], sorted(got)))
+
 
 def expand_keeps_size(prog, rep, RULE):
     """changing the storage form of a regular file (inline area -> blocks) does not touch its length: the routine that
